@@ -11,7 +11,6 @@ use crate::simhooks::{self, Outcome};
 use geo_booleanop::boolean::{BooleanOp, Operation};
 use geo_types::MultiPolygon;
 use serde_json::{json, Value};
-use std::cell::RefCell;
 use std::rc::Rc;
 use std::sync::atomic::{AtomicBool, Ordering::SeqCst};
 use std::sync::{Arc, Mutex};
@@ -68,13 +67,13 @@ pub struct C12World {
     pub schedule: Option<Vec<u8>>,
     pub hash_seed: u64,
     pub heap_seed: u64,
-    pub recorded: RefCell<Vec<u8>>,
+    pub recorded: Mutex<Vec<u8>>,
 }
 impl Clone for C12World {
     fn clone(&self) -> Self {
         C12World {
             operands: self.operands.clone(), clients: self.clients.clone(), yield16: self.yield16, sched_seed: self.sched_seed,
-            schedule: self.schedule.clone(), hash_seed: self.hash_seed, heap_seed: self.heap_seed, recorded: RefCell::new(Vec::new()),
+            schedule: self.schedule.clone(), hash_seed: self.hash_seed, heap_seed: self.heap_seed, recorded: Mutex::new(Vec::new()),
         }
     }
 }
@@ -457,12 +456,12 @@ impl World for C12World {
             schedule: None,
             hash_seed: Rng::stream(seed, "hashkeys").next(),
             heap_seed: Rng::stream(seed, "heap").next(),
-            recorded: RefCell::new(Vec::new()),
+            recorded: Mutex::new(Vec::new()),
         }
     }
 
     fn to_json(&self) -> Value {
-        let rec = self.recorded.borrow().clone();
+        let rec = self.recorded.lock().unwrap().clone();
         let explicit = self.schedule.clone().or(if rec.is_empty() { None } else { Some(rec) });
         json!({
             "operands": self.operands.iter().map(geom::operand_json).collect::<Vec<_>>(),
@@ -488,7 +487,7 @@ impl World for C12World {
             schedule: v["schedule_explicit"].as_array().map(|a| a.iter().map(|x| x.as_u64().unwrap_or(0) as u8).collect()),
             hash_seed: p("hash_key_seed"),
             heap_seed: p("heap_seed"),
-            recorded: RefCell::new(Vec::new()),
+            recorded: Mutex::new(Vec::new()),
         })
     }
 
@@ -541,7 +540,7 @@ impl World for C12World {
         for c in &g.log {
             log.add(*c as u64);
         }
-        *self.recorded.borrow_mut() = g.log.clone();
+        *self.recorded.lock().unwrap() = g.log.clone();
         let hist = sh.history.lock().unwrap_or_else(|e| e.into_inner());
         let mut total_events = 0;
         for e in hist.iter() {
@@ -591,7 +590,7 @@ impl World for C12World {
         let mut out: Vec<Self> = Vec::new();
         // 0. pin the schedule that was recorded
         if self.schedule.is_none() {
-            let rec = self.recorded.borrow().clone();
+            let rec = self.recorded.lock().unwrap().clone();
             let mut w = self.clone();
             w.schedule = Some(rec);
             out.push(w);
